@@ -154,7 +154,7 @@ func (t Time) Add(input Quantity) (Time, error) {
 	if err != nil {
 		return Time{}, err
 	}
-	duration = roundToTimePrecision(timeMap[t.l], duration)
+	duration = roundToLayout(t.l, roundToTimePrecision(timeMap[t.l], duration))
 	return Time{timeOfDay(t.time.Add(duration)), t.l}, nil
 }
 
@@ -165,7 +165,7 @@ func (t Time) Sub(input Quantity) (Time, error) {
 	if err != nil {
 		return Time{}, err
 	}
-	duration = roundToTimePrecision(timeMap[t.l], duration)
+	duration = roundToLayout(t.l, roundToTimePrecision(timeMap[t.l], duration))
 	return Time{timeOfDay(t.time.Add(-duration)), t.l}, nil
 }
 
@@ -187,6 +187,16 @@ func roundToTimePrecision(p timePrecision, d time.Duration) time.Duration {
 	default:
 		return d
 	}
+}
+
+// roundToLayout additionally drops a sub-second amount when the value is written
+// without a fraction (the precision enumerations do not distinguish the two).
+func roundToLayout(l layout, d time.Duration) time.Duration {
+	switch l {
+	case secondLayout, dtSecondLayout, dtSecondLayoutTZ:
+		return d / time.Second * time.Second
+	}
+	return d
 }
 
 func (t Time) getComponents() []int {
